@@ -239,7 +239,7 @@ def prove(mod, tag):
         st["log"] = log[-6000:]
         # find which modules still build, to name the broken obligations
         st["broken"].append({"what": "lake build failed", "detail": _errors_of(log)})
-    hy = leanrun.hygiene()
+    hy = leanrun.hygiene(mods + ([os.path.join(leanrun.LEAN, mod.DRIVER)] if getattr(mod, "DRIVER", None) else []))
     st["hygiene"] = hy
     if hy:
         st["broken"].append({"what": "forbidden construct in Lean sources", "detail": hy[:20]})
@@ -274,6 +274,18 @@ def _errors_of(log):
     return out[:8] or [log[-1500:]]
 
 
+def _watchdog(seconds):
+    """A check that runs away is an infrastructure problem (exit 2), never a verdict."""
+    import signal
+
+    def _bye(*_a):
+        print("TIMEOUT: check exceeded its %d s budget (exit 2, not a violation)" % seconds)
+        sys.stdout.flush()
+        os._exit(2)
+    signal.signal(signal.SIGALRM, _bye)
+    signal.alarm(seconds)
+
+
 def main(mod, argv=None):
     import argparse
     ap = argparse.ArgumentParser()
@@ -285,6 +297,7 @@ def main(mod, argv=None):
     seed = int(os.environ.get("VERIF_SEED", "0") or 0)
     prop = mod.PROP
     t0 = time.time()
+    _watchdog(3000 if tier == "quick" else 4 * 3600)
     if a.replay:
         return replay(mod, a.replay)
 
